@@ -1034,11 +1034,34 @@ async fn handle_new_connection_established(
         incoming_pipe_sender,
       };
 
-      if sca_mailbox.send(attach_cmd).await.is_err() {
-        return Err(ZmqError::Internal(format!(
-          "Failed to send ScaInitializePipes to SCA {}",
-          sca_handle_id
-        )));
+      let session_already_gone = sca_mailbox.send(attach_cmd).await.is_err();
+      let stopped_before_registration = {
+        let mut core_s_write = core_arc.core_state.write();
+        let early = &mut core_s_write.sessions_stopped_before_registration;
+        early
+          .iter()
+          .position(|(id, _)| *id == sca_handle_id)
+          .and_then(|pos| early.remove(pos))
+      };
+      if session_already_gone || stopped_before_registration.is_some() {
+        // The session died before it was registered here (its ActorStopping event found nothing to
+        // clean up). This is one connection's failure, not the socket's: undo the registration the
+        // normal way, which also schedules the reconnect of an outbound connection.
+        let error = match stopped_before_registration {
+          Some((_, error_opt)) => error_opt,
+          None => Some(ZmqError::ConnectionClosed),
+        };
+        tracing::debug!(handle = core_handle, sca_id = sca_handle_id, conn_uri = %endpoint_uri_from_event, "Session stopped before it was registered. Cleaning up.");
+        shutdown::handle_actor_stopping_event(
+          core_arc.clone(),
+          socket_logic_strong,
+          sca_handle_id,
+          ActorType::Session,
+          Some(&endpoint_uri_from_event),
+          error.as_ref(),
+        )
+        .await;
+        return Ok(());
       }
 
       tracing::debug!(
